@@ -763,6 +763,9 @@ func (m *Model) Apply(msg sdk.Msg, bt time.Time) (ApplyResult, error) {
 			if proofAtOtherSequence(e.Doc, t.VerificationMethodId, content, e.Seq, t.Signature) {
 				return res, rej("proof made over another sequence")
 			}
+			if m.proofForOtherIdentifier(e.Doc, t.Did, t.VerificationMethodId, e.Seq, t.Signature) {
+				return res, rej("proof made for another identifier")
+			}
 			return res, rej("proof invalid")
 		}
 		m.Did[t.Did] = &DidEntry{Tomb: true, Seq: e.Seq + 1}
@@ -869,6 +872,53 @@ func (m *Model) Apply(msg sdk.Msg, bt time.Time) (ApplyResult, error) {
 		res.Unjudged, res.Why = true, "not a custom message"
 	}
 	return res, nil
+}
+
+// proofForOtherIdentifier: a deactivation carries no document; the identifier inside the signed data is all that ties
+// its proof to one DID. True if the signature is a genuine deactivation proof by this key and sequence for ANOTHER
+// identifier: a registered DID, a controller named in the document (C11: proofs are bound to one DID).
+func (m *Model) proofForOtherIdentifier(keyDoc *didtypes.DIDDocument, did, methodID string, seq uint64, sig []byte) bool {
+	cands := map[string]bool{}
+	for d := range m.Did {
+		cands[d] = true
+	}
+	if keyDoc != nil {
+		if keyDoc.Controller != nil {
+			for _, c := range *keyDoc.Controller {
+				cands[c] = true
+			}
+		}
+		for _, vm := range keyDoc.VerificationMethods {
+			if vm != nil {
+				cands[vm.Controller] = true
+			}
+		}
+		for i := range keyDoc.Authentications {
+			if vm := keyDoc.Authentications[i].GetVerificationMethod(); vm != nil {
+				cands[vm.Controller] = true
+			}
+		}
+	}
+	delete(cands, did)
+	n := 0
+	for _, c := range sortedKeysB(cands) {
+		if n++; n > 40 {
+			break
+		}
+		if ok, amb := proofOK(keyDoc, methodID, &didtypes.DIDDocument{Id: c}, seq, sig); ok && !amb {
+			return true
+		}
+	}
+	return false
+}
+
+func sortedKeysB(m map[string]bool) []string {
+	out := make([]string, 0, len(m))
+	for k := range m {
+		out = append(out, k)
+	}
+	sort.Strings(out)
+	return out
 }
 
 // proofAtOtherSequence: the proof is a genuine proof of this content by a current authentication key, only made over a
